@@ -315,6 +315,14 @@ class Replayer:
             if r[0] in ("timeout", "died"):
                 return Outcome.inconclusive("session_" + r[0], labels)
             if r[0] == "exc":
+                bases = [baseline(self.pending_ops[p]) for p in op["pids"]]
+                for p in op["pids"]:
+                    self.pending_ops.pop(p)
+                if any(b[0] == "exc" for b in bases):
+                    # the job's backward pass raises on its own as well (e.g. "Picard did not converge" of the implicit adjoint):
+                    # not a matter of history
+                    labels.append("raises_both")
+                    return Outcome.ok(False, labels)
                 return Outcome.fail("backward_raises_in_history", f"backward over pending {op['pids']} raised {r[1]}: {r[2]}", labels, True, history=self.ops)
             labels.append("backward_over:%d" % len(op["pids"]))
             cfgs = {json.dumps(self.pending_ops[p]["cfg"], sort_keys=True) for p in op["pids"]}
@@ -535,8 +543,8 @@ def make_machine(rec, Failure, tier, sub):
 class Histories(SubCheck):
     name = "histories"
     stateful = True
-    budget = {"quick": 64, "thorough": 2400}      # histories
-    step_count = {"quick": 12, "thorough": 16}
+    budget = {"quick": 32, "thorough": 2400}      # histories
+    step_count = {"quick": 10, "thorough": 16}
     weight = 4.0
 
     def machine(self, rec, Failure, tier):
